@@ -513,6 +513,6 @@ func c13World(rc *kernel.RunCtx) {
 			}
 			cs = append(cs, map[string]any{"context": c.name, "renders": sp, "fault": fmt.Sprint(c.fault), "tokens": strings.Join(tokens(string(c.w.got)), " ")})
 		}
-		rc.Res.Sample = map[string]any{"contexts": cs, "once_handles": nOnce,  "steps": k.Steps, "switches": k.Switches}
+		rc.Res.Sample = map[string]any{"contexts": cs, "once_handles": nOnce, "steps": k.Steps, "switches": k.Switches}
 	}
 }
